@@ -132,6 +132,7 @@ class MemWriter:
         self.fail: BaseException | None = None
         self.on_write = on_write
         self.close_calls = 0
+        self.closed_exc: BaseException | None = None  # what the connection was lost with (a real wait_closed() re-raises it)
 
     def write(self, data: bytes) -> None:
         if self.fail is not None:
@@ -158,6 +159,8 @@ class MemWriter:
         # a real StreamWriter.wait_closed() is an await point: a task that was cancelled by its own close() gets the
         # CancelledError here
         await asyncio.sleep(0)
+        if self.closed_exc is not None:
+            raise self.closed_exc
 
     def is_closing(self) -> bool:
         return self.closed
